@@ -140,6 +140,7 @@ type SchedProfile struct {
 	AlwaysBar   bool // C04 barrier workload: settle before every completion
 	Faults      int  // number of Cancel fault goroutines (0..2)
 	WFault      int
+	WMidpass    int // weight of "a running task completes in the middle of a scheduling pass"
 	CancelAt    int // >=0: fire the first Cancel exactly at this step; -1: weighted
 	CancelAfter bool
 }
@@ -164,6 +165,7 @@ type schedEngine struct {
 	exitCount     map[string]int
 	maxInflight   int
 	faultsFired   int
+	midArm        int32 // >0: park at the n-th visit of a stage by the root pipeline's scheduling loops
 	nstages       int
 	stageReleased map[string]bool
 }
@@ -391,6 +393,17 @@ func (e *schedEngine) settle() {
 	stable := 0
 	for i := 0; stable < need && i < 4000; i++ {
 		c.Advance(simPause)
+		if vp := c.ParkedOf("sched-visit"); len(vp) > 0 {
+			// the pass is suspended between two visits: a task completes now, then the pass goes on
+			if runs := c.ParkedOf("run"); len(runs) > 0 {
+				k := c.Ch.Choose(len(runs), "midpass-complete")
+				c.Count("midpass_completions")
+				c.Release(runs[k], Action{Kind: "go"})
+				c.Quiesce()
+			}
+			c.Release(vp[0], Action{Kind: "go"})
+			c.Quiesce()
+		}
 		if s2 := e.signature(); s2 != sig {
 			sig, stable = s2, 0
 		} else {
@@ -468,11 +481,19 @@ func RunSchedWorld(c *Ctl, prof *SchedProfile, g *GraphSpec, res *RunResult) {
 	stub := &stubRunner{c: c, leaves: leaves, cancelCh: make(chan struct{})}
 	c.onEvent = e.onEvent
 	scheduler.VerifYield = func(kind string, subj interface{}) {
-		if kind != "stage-start" {
-			return
-		}
 		st := subj.(*scheduler.Stage)
-		c.Yield("stage-start", st.Name, nil)
+		switch kind {
+		case "stage-start":
+			c.Yield("stage-start", st.Name, nil)
+		case "sched-visit":
+			// inactive unless the controller armed a mid-pass park; only visits of the root
+			// pipeline's loops count (their sequence is deterministic)
+			if atomic.LoadInt32(&e.midArm) > 0 && e.g.Stage(st.Name) != nil {
+				if atomic.AddInt32(&e.midArm, -1) == 0 {
+					c.Yield("sched-visit", "root", nil)
+				}
+			}
+		}
 	}
 	defer func() { scheduler.VerifYield = nil }()
 
@@ -563,13 +584,25 @@ func RunSchedWorld(c *Ctl, prof *SchedProfile, g *GraphSpec, res *RunResult) {
 		for range parks {
 			w = append(w, prof.WRelease)
 		}
+		wMid := 0
+		if prof.WMidpass > 0 && len(c.ParkedOf("run")) > 0 && orderedLoops > 0 {
+			wMid = prof.WMidpass
+		}
 		w = append(w, prof.WAdvance, prof.WBarrier)
 		if len(faults) > 0 && (prof.CancelAt < 0 || e.faultsFired > 0) {
 			w = append(w, prof.WFault)
 		} else {
 			w = append(w, 0)
 		}
+		w = append(w, wMid)
 		k := c.Ch.Weighted(w, "sched-act")
+		if k == len(w)-1 && wMid > 0 {
+			// suspend the next pass at its n-th visit and let a running task complete there
+			atomic.StoreInt32(&e.midArm, int32(1+c.Ch.Choose(6*len(e.g.Stages), "midpass-visit")))
+			e.settle()
+			atomic.StoreInt32(&e.midArm, 0)
+			continue
+		}
 		switch {
 		case k < len(parks):
 			if len(parks) >= 2 {
